@@ -92,6 +92,9 @@ func runC18(p *Prog, r *Result) {
 	info := pkg.TypesInfo
 	r.Rule("R18", "metacharacter tables of QuoteMeta, HasMeta and regexpNext agree (set extraction from switch case lists)", 5)
 
+	r.Rule("R18b", "Regexp's verbatim short-cut is taken only for patterns without any regexp metacharacter", 1)
+	checkRegexpShortcut(p, r, "R18b")
+
 	qm := p.FuncDecl("pattern", "QuoteMeta")
 	hm := p.FuncDecl("pattern", "HasMeta")
 	rn := p.FuncDecl("pattern", "regexpNext")
@@ -279,6 +282,8 @@ func bodyReturnsTrue(info *types.Info, body []ast.Stmt) bool {
 }
 
 var c18Controls = []Control{
+	{Name: "regexp-shortcut-forgets-plus", Rule: "R18b", WantKey: "short-cut set covers", File: "pattern/pattern.go",
+		Mutate: ctlReplaceAnywhere("case '*', '?', '[', '\\\\', '.', '+', '(', ')', '|',", "case '*', '?', '[', '\\\\', '.', '(', ')', '|',")},
 	{Name: "quotemeta-loop-forgets-bracket", Rule: "R18", WantKey: "scan set = escape set", File: "pattern/pattern.go",
 		Mutate: ctlReplace("QuoteMeta", "case '*', '?', '[', '\\\\':\n\t\t\tsb.WriteByte('\\\\')", "case '*', '?', '\\\\':\n\t\t\tsb.WriteByte('\\\\')", 0)},
 	{Name: "hasmeta-new-meta", Rule: "R18", WantKey: "HasMeta#meta bytes", File: "pattern/pattern.go",
